@@ -11,7 +11,7 @@ use tracing::{debug, instrument};
 
 #[instrument(skip_all, name = "trace_create_consumer_group", fields(iggy_user_id = session.get_user_id(), iggy_client_id = session.client_id, iggy_stream_id = command.stream_id.as_string(), iggy_topic_id = command.topic_id.as_string()))]
 pub async fn handle(
-    command: CreateConsumerGroup,
+    mut command: CreateConsumerGroup,
     sender: &mut SenderKind,
     session: &Session,
     system: &SharedSystem,
@@ -36,12 +36,15 @@ pub async fn handle(
             })?;
     let consumer_group = consumer_group.read().await;
     let response = mapper::map_consumer_group(&consumer_group).await;
+    // The assigned ID is journalled, otherwise the replay would have to guess it again.
+    let assigned_group_id = consumer_group.group_id;
     drop(consumer_group);
 
     let system = system.downgrade();
     let stream_id = command.stream_id.clone();
     let topic_id = command.topic_id.clone();
     let group_id = command.group_id;
+    command.group_id = Some(assigned_group_id);
 
     system
         .state
